@@ -97,6 +97,12 @@ def path(J, ctx, kind, m, n, cfg, prefilter=False):
             J.cex["what"] = "match_to raises %r" % (e,)
             J.detail = J.cex["what"]
         return
+    if prefilter and ctx.fresh_sat([], 60000) == "unsat":
+        # with the real k-mer tables the explorer forks on equalities of symbolic k-mers without asking the solver every
+        # time; a combination of such decisions that no adapter satisfies is not a path of the program: nothing to claim
+        J.extra["infeasible_paths"] = J.extra.get("infeasible_paths", 0) + 1
+        ctx.obligations = []
+        return
     J.safety(ctx, mk)
     if mt is None:
         J.extra["paths_none"] = J.extra.get("paths_none", 0) + 1
